@@ -516,13 +516,18 @@ func genClBad(t *rapid.T) ClBad {
 	d := genClDoc(t)
 	d.FinalNewline = true
 	i := rapid.IntRange(0, len(d.Entries)-1).Draw(t, "which")
-	class := rapid.SampledFrom([]string{"header-no-open-paren", "header-no-close-paren", "header-indented", "bad-version", "trailer-single-space", "bad-month", "day-out-of-range", "unindented-body-line", "trailer-no-date", "bad-zone"}).Draw(t, "class")
+	class := rapid.SampledFrom([]string{"header-no-open-paren", "header-no-close-paren", "header-indented", "bad-version", "trailer-single-space", "bad-month", "day-out-of-range", "unindented-body-line", "trailer-no-date", "bad-zone", "stray-line-at-heading"}).Draw(t, "class")
 	var sb strings.Builder
 	for j, e := range d.Entries {
 		sb.WriteString(gapText(e))
 		h, b, tr := renderClEntry(e)
 		if j == i {
 			switch class {
+			case "stray-line-at-heading":
+				// a line where a heading is due that is none - and no complete ignorable line either: half
+				// a comment, half a keyword, an editor's mode line. Whatever is made of it, the entries
+				// behind it do not silently go missing
+				h = rapid.SampledFrom([]string{"/* unclosed comment", "/*", "*/", "$Id", "$", "$ ", "#!", ";; Local variables:", "vim: set ts=8:", "Old Changelog:", "-- ", "("}).Draw(t, "stray") + "\n" + h
 			case "header-indented":
 				// a heading that got a blank (or two, or a tab) in front: not a heading any more
 				h = rapid.SampledFrom([]string{" ", "  ", "\t", " \t"}).Draw(t, "hind") + h
@@ -555,7 +560,7 @@ func genClBad(t *rapid.T) ClBad {
 
 var specC17Malformed = Register(&Spec[ClBad]{
 	Prop: "C17", Name: "malformed",
-	Rule: "one entry of a generated changelog is damaged in one way: header without '(' or without ')', header pushed in by a blank or tab, unparsable version, trailer with a single space before the date, month 'Foo', day 32, an unindented body line, trailer without date, zone written 'UTC'. Oracle: Parse returns an error, or all entries of the model - never fewer entries without an error. Every case is non-trivial; distinct by text.",
+	Rule: "one entry of a generated changelog is damaged in one way: header without '(' or without ')', header pushed in by a blank or tab, unparsable version, trailer with a single space before the date, month 'Foo', day 32, an unindented body line, trailer without date, zone written 'UTC', a stray line where a heading is due ('/*' without '*/', '$Id', a lone '$', an editor's mode line, 'Old Changelog:'). Oracle: Parse returns an error, or all entries of the model - never fewer entries without an error. Every case is non-trivial; distinct by text.",
 	Check: func(c ClBad, r *Recorder) error {
 		r.Case(c.Text, true, "malformed:"+c.Class)
 		r.Sample(map[string]string{"class": c.Class, "text": c.Text})
